@@ -97,12 +97,15 @@ func runC06(c *Check, w *World) {
 	// R06.4 derivation failure ⇒ rejection: the comparison happens only where the derivation's error is nil
 	hits := tb.Reach(val, MatchCallee("crypto/subtle.ConstantTimeCompare", "crypto/hmac.Equal"), 8)
 	for _, h := range hits {
+		// the error test may sit in the comparing function or in a caller on the chain (before the call that leads on)
 		okErr := false
-		for _, at := range atomsOf(CondsAt(h.Call.Block())) {
-			if at.Op == token.EQL && isNilConst(at.Y) {
-				if ex, ok := at.X.(*ssa.Extract); ok && ex.Index == 1 {
-					if _, isCall := ex.Tuple.(*ssa.Call); isCall {
-						okErr = true
+		for _, lv := range h.Levels {
+			for _, at := range atomsOf(CondsAt(lv.Site.Block())) {
+				if at.Op == token.EQL && isNilConst(at.Y) {
+					if ex, ok := at.X.(*ssa.Extract); ok && ex.Index == 1 {
+						if _, isCall := ex.Tuple.(*ssa.Call); isCall {
+							okErr = true
+						}
 					}
 				}
 			}
